@@ -391,6 +391,14 @@ def setup(ctx: FunctionContext) -> Exec:
                 print(f"{setup_sig} trace:")
                 render_trace(setup_ex.context)
 
+        elif setup_ex.context.is_stuck():
+            # the path got stuck inside a nested call (no output and no error at this level):
+            # the state built so far is not the state after setUp()
+            warn_code(
+                INTERNAL_ERROR,
+                f"in {setup_sig}: {setup_ex.context.get_stuck_reason()}",
+            )
+
         else:
             # note: ex.path.to_smt2() needs to be called at this point. The solver object is shared across paths,
             # and solver.to_smt2() will return a different query if it is called after a different path is explored.
